@@ -33,7 +33,7 @@ ASSUMPTIONS = [
 OUTSIDE = ["torch backend", "IEEE reals beyond the concrete kind probes", "int64 overflow", "$ and :$ on arbitrary text (C11)",
            "grade with equal keys (tie order is not specified by the reference)", "gradient verbs (C06/C07)"]
 
-LETTERS = "abcdefgh"
+LETTERS = "cabfdgeh"        # NOT in alphabetical order: a verb that sorts where it should keep the order of appearance shows
 
 
 # ======================================================================================= reference (from the docstrings)
@@ -287,6 +287,11 @@ def dy_vec_atom(b: List[int], x: int, i: int, j: int) -> bool:
             got = VD[":="](operand, W.arr([xv, i]) if mode == "ints" else W.arr([xv, i])); want = ref_amend(elems, xv, [i])
             if mode == "str":
                 want = "".join(want)
+        elif verb == ":=s":
+            # a value of ANOTHER kind than the vector's elements (a string into integers, an integer into characters' list form)
+            if not (0 <= i < n) or mode == "str":
+                return True
+            got = VD[":="](operand, W.arr(["zz", i])); want = ref_amend(elems, "zz", [i])
         elif verb == ":=l":
             if not (0 <= i < n and 0 <= j < n):
                 return True
@@ -714,6 +719,31 @@ def matrix(p0: int, p1: int, p2: int, p3: int, p4: int, p5: int, a: int, i: int,
             got = VM["-"](m); want = [[-x for x in r] for r in rows]
         elif verb == "+a":
             got = VD["+"](m, a); want = [[x + a for x in r] for r in rows]
+        # ---- a matrix is a LIST OF ROWS for the verbs that look at whole elements
+        elif verb == "=":
+            got = VM["="](m); want = ref_group(rows)
+        elif verb == "?m":
+            got = VM["?"](m); want = ref_range(rows)
+        elif verb == "?a":
+            got = VD["?"](m, a); want = []                          # an atom is never an element of a list of rows
+        elif verb == "?r":
+            if not (0 <= i < R):
+                return True
+            got = VD["?"](m, W.arr(list(rows[i]))); want = ref_find(rows, rows[i])
+        elif verb in ("<", ">"):
+            if any(rows[x] == rows[y] for x in range(R) for y in range(x + 1, R)):
+                return True                                         # the order of equal elements is outside the claim
+            got = VM[verb](m); want = sorted(range(R), key=lambda ix: rows[ix], reverse=(verb == ">"))
+        elif verb in ("^rag1", "^rag2", "^rag3"):
+            # Shape of lists that are not rectangular: only the dimensions shared by all elements count (reference: ^[1 [2]] --> [2])
+            t = {"^rag1": [p0, [p1]], "^rag2": [[p0], [p1, p2]], "^rag3": [[[p0], [p1, p2]], [[p3], [p4, p5]]]}[verb]
+            got = VM["^"](W.arr(t)); want = {"^rag1": [2], "^rag2": [2], "^rag3": [2, 2]}[verb]
+        elif verb == ":=":
+            if not (0 <= i < R):
+                return True
+            got = VD[":="](m, W.arr([a, i])); want = [(a if r == i else rows[r]) for r in range(R)]
+            if W.canon(m) != W.canon(rows):
+                return verdict(False)
         else:
             raise RuntimeError("verb?")
     except Exception as e:
@@ -746,7 +776,7 @@ def obligations(tier):
             if mode == "str" and v == ":^":
                 continue
             add("a%sb count x %s" % (v, mode), "dy_count_vec", {"verb": v, "mode": mode, "n": n, "amax": amax})
-        for v in ("@", "@l", "?", ":=", ":=l", ",r", ",l", ",,", ",e", ",el", ",p"):
+        for v in ("@", "@l", "?", ":=", ":=l", ",r", ",l", ",,", ",e", ",el", ",p") + ((":=s",) if mode == "ints" else ()):
             add("%s vector(%s) x atom" % (v, mode), "dy_vec_atom", {"verb": v, "mode": mode, "n": n})
         for v in (":#", ":_", ":^"):
             if mode == "str" and v == ":^":
@@ -771,7 +801,7 @@ def obligations(tier):
             add("atomic monad %s %s" % (v, ta), "atomic1", {"verb": v, "ta": ta})
     for w in ("divide", "intdiv", "power", "floor", "minmax-real"):
         add("kind rule %s" % w, "kinds", {"which": w})
-    for v in ("+", "^", "|", "*", "#", ":+", "#d", "_d", ":@", ":-", "@", ",", ":^", "-", "+a"):
-        for sh in (["23"] if q else ["23", "32", "22"]):
+    for v in ("+", "^", "|", "*", "#", ":+", "#d", "_d", ":@", ":-", "@", ",", ":^", "-", "+a", "=", "?m", "?a", "?r", "<", ">", ":=", "^rag1", "^rag2", "^rag3"):
+        for sh in ((["23"] if v not in ("=", "?m", "<", ">") else ["32"]) if q else ["23", "32", "22"]):
             add("matrix %s shape %s" % (v, sh), "matrix", {"verb": v, "shape": sh})
     return obs
